@@ -430,3 +430,29 @@ def check_concurrent_candidates_case(ctx, case, monitor):
             if bad:
                 ctx.fail("concurrent:candidates:disorder-differs-from-the-same-call-alone", {"thread": k, "examples": bad[:4]}, monitor=monitor)
                 break
+
+
+def same_parameters_other_measure(rng, dspec):
+    """A dissimilarity of the same class, delta_empty, categories (and alpha, beta) that measures differently: another matrix
+    for a precomputed one, other positions for an ordinal one.  None for the classes that have no such parameter."""
+    import copy
+    d2 = copy.deepcopy(dspec)
+    comp = d2.get("cat") if d2["kind"] == "combined" else d2
+    if not comp:
+        return None
+    if comp["kind"] == "precomputed" and len(comp["cats"]) >= 2:
+        k = len(comp["cats"])
+        comp["matrix"] = [[0.0 if i == j else round(0.1 + 0.8 * rng.random(), 3) for j in range(k)] for i in range(k)]
+        for i in range(k):
+            for j in range(i):
+                comp["matrix"][i][j] = comp["matrix"][j][i]
+        comp.pop("matrix_dtype", None)
+        comp.pop("caller_edits_matrix", None)
+        return d2
+    if comp["kind"] == "ordinal" and len(comp["cats"]) >= 3:
+        p = list(range(len(comp["cats"])))
+        rng.shuffle(p)
+        comp["p"] = [float(x * x) for x in p]
+        comp.pop("p_dtype", None)
+        return d2
+    return None
